@@ -5,31 +5,145 @@ open Std
 
 variable {κ ν : Type} {cmp : κ → κ → Ordering}
 
+/-- order of a node: both subtrees are ordered (the bound facts stay in `SM.sorted_append_cons`) -/
+theorem BT.Ordered.node_left {l r : BT κ ν} {k : κ} {v : ν}
+    (ho : (BT.node l k v r).Ordered cmp) : l.Ordered cmp :=
+  (SM.sorted_append_cons.1 ho).1
+
+theorem BT.Ordered.node_right {l r : BT κ ν} {k : κ} {v : ν}
+    (ho : (BT.node l k v r).Ordered cmp) : r.Ordered cmp :=
+  (SM.sorted_append_cons.1 ho).2.1
+
+/-- unlinking the right-most node keeps the in-order listing -/
+theorem BT.delMax_toList (l : BT κ ν) (k : κ) (v : ν) (r : BT κ ν) :
+    (BT.delMax l k v r).1.toList ++ [(BT.delMax l k v r).2] = (BT.node l k v r).toList := by
+  induction r generalizing l k v with
+  | nil => simp [BT.delMax, BT.toList]
+  | node rl rk rv rr _ ih =>
+    have := ih rl rk rv
+    simp only [BT.delMax, BT.toList, List.append_assoc, List.cons_append] at this ⊢
+    rw [this]
+
 theorem BT.lookup_refines [TransCmp cmp] (t : BT κ ν) (ho : t.Ordered cmp) (k : κ) :
     t.lookup cmp k = SM.lookup cmp t.toList k := by
-  sorry
+  induction t with
+  | nil => simp [BT.lookup, BT.toList, SM.lookup, SM.find]
+  | node l x v r ihl ihr =>
+    have hs : SM.Sorted cmp (l.toList ++ (x, v) :: r.toList) := ho
+    simp only [BT.lookup, BT.toList, SM.lookup]
+    cases h : cmp k x with
+    | lt => rw [SM.find_mid_lt hs h]; exact ihl ho.node_left
+    | gt => rw [SM.find_mid_gt hs h]; exact ihr ho.node_right
+    | eq => rw [SM.find_mid_eq hs h]; rfl
 
 /-- number of comparisons of a lookup ≤ height -/
 theorem BT.lookupPath_le_height (t : BT κ ν) (k : κ) : (t.lookupPath cmp k).length ≤ t.height := by
-  sorry
+  induction t with
+  | nil => simp [BT.lookupPath, BT.height]
+  | node l x v r ihl ihr =>
+    simp only [BT.lookupPath, BT.height]
+    cases cmp k x <;> simp only [List.length_cons, List.length_nil] <;> omega
 
 theorem BT.ins_refines [TransCmp cmp] (t : BT κ ν) (ho : t.Ordered cmp) (k : κ) (v : ν) :
     (t.ins cmp k v).1.toList = SM.insert cmp t.toList k v ∧
     (t.ins cmp k v).2.1 = (SM.find cmp t.toList k).isNone ∧
     (t.ins cmp k v).2.2 = (SM.find cmp t.toList k).toList := by
-  sorry
+  induction t with
+  | nil => simp [BT.ins, BT.toList, SM.insert, SM.find]
+  | node l x y r ihl ihr =>
+    have hs : SM.Sorted cmp (l.toList ++ (x, y) :: r.toList) := ho
+    simp only [BT.ins, BT.toList]
+    cases h : cmp k x with
+    | lt =>
+      obtain ⟨h1, h2, h3⟩ := ihl ho.node_left
+      simp only [SM.insert_mid_lt hs h, SM.find_mid_lt hs h, BT.toList, h1, h2, h3, and_self]
+    | gt =>
+      obtain ⟨h1, h2, h3⟩ := ihr ho.node_right
+      simp only [SM.insert_mid_gt hs h, SM.find_mid_gt hs h, BT.toList, h1, h2, h3, and_self]
+    | eq =>
+      simp [SM.insert_mid_eq hs h, SM.find_mid_eq hs h, BT.toList]
 
 theorem BT.del_refines [TransCmp cmp] (t : BT κ ν) (ho : t.Ordered cmp) (k : κ) :
     (t.del cmp k).1.toList = SM.erase cmp t.toList k ∧
     (t.del cmp k).2.1 = (SM.find cmp t.toList k).isSome ∧
     (t.del cmp k).2.2 = (SM.find cmp t.toList k).toList := by
-  sorry
+  induction t with
+  | nil => simp [BT.del, BT.toList, SM.erase, SM.find]
+  | node l x y r ihl ihr =>
+    have hs : SM.Sorted cmp (l.toList ++ (x, y) :: r.toList) := ho
+    cases h : cmp k x with
+    | lt =>
+      obtain ⟨h1, h2, h3⟩ := ihl ho.node_left
+      simp only [BT.del, h, SM.erase_mid_lt hs h, SM.find_mid_lt hs h, BT.toList, h1, h2, h3, and_self]
+    | gt =>
+      obtain ⟨h1, h2, h3⟩ := ihr ho.node_right
+      simp only [BT.del, h, SM.erase_mid_gt hs h, SM.find_mid_gt hs h, BT.toList, h1, h2, h3, and_self]
+    | eq =>
+      simp only [BT.toList, SM.erase_mid_eq hs h, SM.find_mid_eq hs h]
+      cases l with
+      | nil => simp [BT.del, h, BT.toList]
+      | node ll lk lv lr =>
+        cases r with
+        | nil => simp [BT.del, h, BT.toList]
+        | node rl rk rv rr =>
+          have := BT.delMax_toList ll lk lv lr
+          simp only [BT.toList] at this
+          simp [BT.del, h, BT.toList, ← this]
+
+/-- one public call: outputs agree and the relation between the states is kept -/
+theorem bstStep_refines [TransCmp cmp] (op : Op κ ν) (t : BT κ ν) (n : Int) (l : List (κ × ν))
+    (ho : t.Ordered cmp) (hl : t.toList = l) (hn : n = l.length) :
+    (bstStep cmp (t, n) op).2 = (specStep cmp l op).2 ∧
+    (bstStep cmp (t, n) op).1.1.Ordered cmp ∧
+    (bstStep cmp (t, n) op).1.1.toList = (specStep cmp l op).1 ∧
+    (bstStep cmp (t, n) op).1.2 = ((specStep cmp l op).1.length : Int) := by
+  subst hl
+  have hs : SM.Sorted cmp t.toList := ho
+  cases op with
+  | ins k v =>
+    obtain ⟨h1, h2, h3⟩ := BT.ins_refines t ho k v
+    have hlen := SM.length_insert hs k v
+    have hn' : (if (t.ins cmp k v).2.1 = true then n + 1 else n) = ((SM.insert cmp t.toList k v).length : Int) := by
+      rw [h2, hlen, hn]
+      split <;> simp
+    refine ⟨?_, ?_, ?_, ?_⟩
+    · simp only [bstStep, specStep, hn', h3]
+    · show SM.Sorted cmp (t.ins cmp k v).1.toList
+      rw [h1]; exact SM.sorted_insert hs k v
+    · exact h1
+    · exact hn'
+  | rem k =>
+    obtain ⟨h1, h2, h3⟩ := BT.del_refines t ho k
+    have hlen := SM.length_erase hs k
+    have hn' : (if (t.del cmp k).2.1 = true then n - 1 else n) = ((SM.erase cmp t.toList k).length : Int) := by
+      rw [h2, hn]
+      split at hlen <;> simp_all <;> omega
+    refine ⟨?_, ?_, ?_, ?_⟩
+    · rw [h2] at hn'
+      simp only [bstStep, specStep, hn', h3, h2]
+    · show SM.Sorted cmp (t.del cmp k).1.toList
+      rw [h1]; exact SM.sorted_erase hs k
+    · exact h1
+    · exact hn'
+  | get k => exact ⟨by simp [bstStep, specStep, BT.lookup_refines t ho k], ho, rfl, hn⟩
+  | each j => exact ⟨by simp [bstStep, specStep, BT.foreachStop], ho, rfl, hn⟩
+  | clear =>
+    refine ⟨by simp [bstStep, specStep, hn], ?_, rfl, by simp [bstStep, specStep, hn]⟩
+    simp [bstStep, BT.Ordered, BT.toList, SM.Sorted]
+  | count => exact ⟨by simp [bstStep, specStep, hn], ho, rfl, hn⟩
 
 /-- invariant of `bstRun` from any related pair of states -/
 theorem bstRun_refines [TransCmp cmp] (ops : List (Op κ ν)) (t : BT κ ν) (n : Int) (l : List (κ × ν))
     (ho : t.Ordered cmp) (hl : t.toList = l) (hn : n = l.length) :
     (bstRun cmp (t, n) ops).2 = (specRun cmp l ops).2 ∧
     (bstRun cmp (t, n) ops).1.1.toList = (specRun cmp l ops).1 := by
-  sorry
+  induction ops generalizing t n l with
+  | nil => exact ⟨rfl, hl⟩
+  | cons op ops ih =>
+    obtain ⟨h1, h2, h3, h4⟩ := bstStep_refines op t n l ho hl hn
+    obtain ⟨i1, i2⟩ := ih (bstStep cmp (t, n) op).1.1 (bstStep cmp (t, n) op).1.2
+      (specStep cmp l op).1 h2 h3 h4
+    simp only [bstRun, specRun]
+    exact ⟨by rw [h1, i1], i2⟩
 
 end PV.Tree
